@@ -798,15 +798,25 @@ func finishReport(P *Program, rep *Report, known *KnownFile, t0 time.Time) int {
 		for _, r := range rep.Results {
 			present[r.Name] = true
 		}
+		for _, n := range rep.Unproved { // (quick tier: baseline obligations met on the way are listed, not attempted)
+			present[n] = true
+		}
 		orphans := map[string]int{}
 		for b := range unproved {
 			if !present[b] {
 				orphans[oblShape(b)]++
 			}
 		}
+		partial := map[string]bool{} // (a unit cut off by the path budget has unexplored, not edited, lines)
+		for _, pu := range rep.Partial {
+			if k := strings.Index(pu, " ("); k >= 0 {
+				pu = pu[:k]
+			}
+			partial[pu] = true
+		}
 		var keep []*OblResult
 		for _, v := range violations {
-			if sh := oblShape(v.Name); v.Kind == "K1" && orphans[sh] > 0 {
+			if sh := oblShape(v.Name); v.Kind == "K1" && orphans[sh] > 0 && !partial[v.Fn] {
 				orphans[sh]--
 				rep.Unproved = append(rep.Unproved, v.Name+"   (stands in for an edited line of the baseline: same function, kind and shape)")
 				obligations--
